@@ -688,6 +688,69 @@ pub const HOSTILE_DICT: [&str; 64] = [
     "漢",
 ];
 
+/// Character sequences on which terminal-width measures disagree (string width
+/// vs sum of character widths), zero-width and wide whitespace, controls.
+pub const UNI_DICT: [&str; 36] = [
+    "\u{2764}\u{FE0F}",
+    "\u{FE0F}",
+    "\u{FE0E}",
+    "\u{1F469}\u{200D}\u{1F469}\u{200D}\u{1F467}",
+    "\u{200D}",
+    "\u{200B}",
+    "\u{200C}",
+    "\u{1F1E9}\u{1F1EA}",
+    "\u{1F1E9}",
+    "\u{1F44D}\u{1F3FD}",
+    "\u{1F3FB}",
+    "\u{1100}\u{1161}\u{11A8}",
+    "\u{1160}",
+    "\u{AD}",
+    "\u{2028}",
+    "\u{2029}",
+    "\u{FEFF}",
+    "\u{85}",
+    "\u{A0}",
+    "\u{3000}",
+    "\u{2003}",
+    "\u{202E}",
+    "\u{FDFA}",
+    "\u{0E33}",
+    "\u{0BCC}",
+    "\u{FF76}\u{FF9E}",
+    "1\u{FE0F}\u{20E3}",
+    "\u{E0061}",
+    "\u{7F}",
+    "\u{1B}[31m",
+    "\u{0}",
+    "\u{301}",
+    "\u{308}\u{301}",
+    "\u{6F22}",
+    "\u{1F600}",
+    "\u{263A}\u{FE0F}",
+];
+
+/// Insert sequences from UNI_DICT next to letters of text (outside tags).
+pub fn sprinkle_unicode(rng: &mut Rng, input: &[u8], permille: usize) -> Vec<u8> {
+    let mut out = Vec::with_capacity(input.len() * 2);
+    let mut in_tag = false;
+    for &b in input {
+        out.push(b);
+        match b {
+            b'<' => in_tag = true,
+            b'>' => in_tag = false,
+            _ => {
+                if !in_tag && (b.is_ascii_alphabetic() || b == b' ' || b == b'\t') && rng.below(1000) < permille {
+                    let n = rng.range(1, 3);
+                    for _ in 0..n {
+                        out.extend_from_slice(rng.pick(&UNI_DICT).as_bytes());
+                    }
+                }
+            }
+        }
+    }
+    out
+}
+
 pub fn mutate(rng: &mut Rng, input: &[u8], nops: usize, dict: &[&str]) -> Vec<u8> {
     let mut b = input.to_vec();
     for _ in 0..nops {
